@@ -15,28 +15,55 @@ META = {
         'program from the same likelihoods" samples.',
     'level_note':
         'Trusted: z3 (linear real arithmetic), np-lite (tile / argmax / fancy '
-        'select; validated per sampled path against numpy). Only the two '
-        'Viterbi kernels are inside the claim: frame likelihoods (numpy '
-        'linalg), transition models (scipy toeplitz), annotation/note writing '
-        'and transposition invariance of the whole pipeline are outside. For '
+        'select; validated per sampled path against numpy). Inside the claim: '
+        'the two Viterbi kernels, and the annotation / note WRITING stages of '
+        'infer_chords_for_sequence and infer_melody_for_sequence '
+        '(h_chord_annotations, h_melody_notes), which run for real while the '
+        'numeric stages around them are nondeterministic stubs: the Viterbi '
+        'stub returns a freely chosen path per frame (for the melody: any path '
+        'of non-zero likelihood - onsets only where the frame has an onset of '
+        'that pitch, continuations only of the current pitch), so the '
+        'well-formedness clause is decided for whatever the kernel returns. '
+        'sequence_note_frames (set / sort / bisect over symbolic times) runs '
+        'for real. Outside: frame likelihoods (numpy linalg), transition '
+        'models (scipy toeplitz), transposition invariance of the whole '
+        'pipeline. For '
         'the chord kernel the module tables _CHORDS/_KEY_CHORDS are replaced '
         'by a 2-chord table for the harness (tables are data; the function '
         'hard-codes 12 keys).',
     'functions': [('melody_inference', '_melody_viterbi'),
-                  ('chord_inference', '_key_chord_viterbi')],
+                  ('chord_inference', '_key_chord_viterbi'),
+                  ('chord_inference', 'infer_chords_for_sequence'),
+                  ('melody_inference', 'infer_melody_for_sequence'),
+                  ('melody_inference', 'sequence_note_frames')],
     'assumptions': [
         'log-likelihoods are finite reals',
         'chord kernel: chord table cut to 2 chords (24 key-chord states)',
+        'writing stages: times on a grid of quarter seconds (symbolic grid '
+        'index; sets and dict keys of times force a finite domain), notes '
+        'with start < end <= total_time; stubs: sequence_note_pitch_vectors '
+        '(frame count as the real one derives it), _chord_frame_log_likelihood, '
+        '_key_chord_distribution, _key_chord_transition_distribution, '
+        '_key_chord_viterbi (free path: key in {C, G}, chord in {N.C., C, Fm}), '
+        '_melody_transition_distribution, _melody_frame_log_likelihood, '
+        '_melody_viterbi (free valid path)',
     ],
     'bounds': {
         'quick': 'melody: (T,S) in {(1,3),(2,3),(3,3),(2,5)} fully symbolic, plus '
                  'the full-size kernel (128 pitches, 257 states, T=2) with a '
                  'concrete first frame / transition matrix and the last '
-                 'frame\'s five boundary states symbolic; chords: T=1 with 24 states',
-        'thorough': 'melody (3,5),(4,3); chords T=2',
+                 'frame\'s five boundary states symbolic; chords: T=1 with 24 '
+                 'states; chord annotations: <=3 bar frames (4/4, 3/4, 5/4, '
+                 'chords_per_bar 3) and <=2 beats on a 5-point grid, with and '
+                 'without add_key_signatures; melody notes: <=2 notes, pitches '
+                 '{60,64}, 4-point grid',
+        'thorough': 'melody (3,5),(4,3); chords T=2; chord annotations with 3 '
+                    'beats / 4 bar frames; melody notes from 2 notes on a '
+                    '5-point grid, 3 notes on a 4-point grid',
     },
-    'outside': ['frame likelihoods, transition models, annotation writing, '
-                'whole-pipeline transposition invariance', 'longer sequences'],
+    'outside': ['frame likelihoods, transition models, whole-pipeline '
+                'transposition invariance', 'longer sequences',
+                'zero-length notes in melody inference'],
 }
 
 
@@ -154,7 +181,273 @@ def h_melody_viterbi_wide(c):
   c.cover('best first state is the highest state index', path[0] == 2 * P)
 
 
+class _Stubs(object):
+  """Temporarily replaces attributes of a module (numeric stages that are
+  outside the claim) and restores them."""
+
+  def __init__(self, mod, **repl):
+    self.mod, self.repl, self.saved = mod, repl, {}
+
+  def __enter__(self):
+    for k, v in self.repl.items():
+      self.saved[k] = getattr(self.mod, k)
+      setattr(self.mod, k, v)
+    return self
+
+  def __exit__(self, *exc):
+    for k, v in self.saved.items():
+      setattr(self.mod, k, v)
+    return False
+
+
+def h_chord_annotations(c):
+  """The annotation-writing stage of infer_chords_for_sequence on an ARBITRARY
+  key/chord path: the numeric stages (pitch vectors, likelihoods, transition
+  model, the Viterbi kernel itself) are replaced by stubs and the stub for
+  _key_chord_viterbi returns a path chosen freely per frame, so the claim
+  covers whatever path the real kernel could return.  Times lie on a grid of
+  quarter seconds (symbolic grid index)."""
+  import math  # pylint: disable=g-import-not-at-top
+  from fractions import Fraction  # pylint: disable=g-import-not-at-top
+  ci = c.mod('chord_inference')
+  sl = c.mod('sequences_lib')
+  pb = c.pb
+  np = c.np
+  TA = pb.NoteSequence.TextAnnotation
+  mode = c.params['mode']
+  K = c.params['K']
+  add_keys = c.params['add_keys']
+  seq = pb.NoteSequence()
+  tk = c.int('total_k', 0, K)
+  seq.total_time = tk * 0.25
+  old_ks = seq.key_signatures.add()
+  old_ks.key = 3
+  other = seq.text_annotations.add()
+  other.text = 'lyric'
+  other.time = 0.5
+  other.annotation_type = TA.UNKNOWN
+  cpb = None
+  if mode == 'bars':
+    spq, qpm, (num, den) = c.params['spq'], c.params['qpm'], c.params['ts']
+    cpb = c.params.get('cpb')
+    seq.quantization_info.steps_per_quarter = spq
+    seq.tempos.add().qpm = qpm
+    ts = seq.time_signatures.add()
+    ts.numerator, ts.denominator = num, den
+  else:
+    B = c.params['B']
+    bks = [c.int('beat%d_k' % i, 0, K) for i in range(B)]
+    for bk in bks:
+      ta = seq.text_annotations.add()
+      ta.time = bk * 0.25
+      ta.annotation_type = TA.BEAT
+  n_before = len(seq.text_annotations)
+  chosen = []
+
+  def pitch_vectors(sequence, seconds_per_frame):
+    # frame count exactly as sequence_note_pitch_vectors derives it
+    if isinstance(seconds_per_frame, (int, float)):
+      n = ci.int(ci.math.ceil(sequence.total_time / seconds_per_frame))
+    else:
+      n = len(seconds_per_frame) + 1
+    return np.zeros([n.__index__() if hasattr(n, '__index__') else n, 12])
+
+  def frame_loglik(vectors, unused_concentration):
+    return np.zeros([len(vectors), 2])
+
+  def viterbi(chord_frame_loglik, unused_a, unused_b):
+    path = []
+    for f in range(len(chord_frame_loglik)):
+      key = c.choice('key%d' % f, [0, 7])
+      chord = c.choice('chord%d' % f, ['N.C.', (0, ''), (5, 'm')])
+      path.append((key, chord))
+    chosen.extend(path)
+    return path
+
+  with _Stubs(ci, sequence_note_pitch_vectors=pitch_vectors,
+              _chord_frame_log_likelihood=frame_loglik,
+              _key_chord_distribution=lambda **k: np.ones([1, 1]),
+              _key_chord_transition_distribution=lambda *a, **k: np.ones([1, 1]),
+              _key_chord_viterbi=viterbi):
+    _, err = c.raises(ci.infer_chords_for_sequence, seq, chords_per_bar=cpb,
+                      add_key_signatures=add_keys)
+  total = Fraction(c.concretize(tk), 4)
+  # ---- expected frame boundaries
+  if mode == 'bars':
+    steps_per_bar = Fraction(spq * 4 * num, den)
+    eff_cpb = cpb if cpb is not None else {(2, 2): 1, (2, 4): 1, (3, 4): 1,
+                                            (4, 4): 2, (6, 8): 2}.get((num, den))
+    if eff_cpb is None:
+      c.check(isinstance(err, ci.UncommonTimeSignatureError),
+              'uncommon meter without chords_per_bar is rejected')
+      return
+    spc_steps = steps_per_bar / eff_cpb
+    if spc_steps.denominator != 1:
+      c.check(isinstance(err, ci.NonIntegerStepsPerChordError),
+              'non-integer steps per chord rejected')
+      return
+    spc = spc_steps / (Fraction(spq) * Fraction(qpm) / 60)
+    F = math.ceil(total / spc)
+    if F == 0:
+      c.check(isinstance(err, ci.EmptySequenceError), 'empty sequence rejected')
+      return
+    frame_time = [f * spc for f in range(F)]
+    frame_step = [f * int(spc_steps) for f in range(F)]
+  else:
+    beats = sorted(set(Fraction(c.concretize(bk), 4) for bk in bks))
+    interior = [b for b in beats if 0 < b < total]
+    if not bks:
+      c.check(isinstance(err, sl.QuantizationStatusError),
+              'no beats and not quantized: rejected')
+      return
+    frame_time = [Fraction(0)] + interior
+    frame_step = None
+    F = len(frame_time)
+  c.check(err is None, 'no error for a sequence that can be annotated')
+  c.check(len(chosen) == F, 'one key/chord decision per chord frame')
+  figs = []
+  for key, chord in chosen:
+    figs.append(chord if chord == 'N.C.' else
+                '%s%s' % (['C', 'C#', 'D', 'Eb', 'E', 'F', 'F#', 'G', 'Ab', 'A',
+                           'Bb', 'B'][chord[0]], chord[1]))
+  want = [(f, figs[f]) for f in range(F) if f == 0 or figs[f] != figs[f - 1]]
+  got = [ta for ta in seq.text_annotations
+         if bool(c.eq(ta.annotation_type, TA.CHORD_SYMBOL))]
+  c.check(len(got) == len(want),
+          'a chord annotation exactly where the chord changes (at most one '
+          'per frame boundary, consecutive symbols differ)')
+  for ta, (f, fig) in zip(got, want):
+    c.check(c.approx(ta.time, float(frame_time[f]), 1e-9),
+            'chord annotation on its frame boundary')
+    c.check(ta.text == fig, 'chord annotation names the chord of its frame')
+    if frame_step is not None:
+      c.check(c.eq(ta.quantized_step, frame_step[f]),
+              'quantized_step of the annotation is the frame start step')
+  for a, b_ in zip(got, got[1:]):
+    c.check(bool(a.time <= b_.time) and a.text != b_.text,
+            'times non-decreasing, consecutive chord symbols differ')
+  c.check(len(seq.text_annotations) == n_before + len(want) and
+          seq.text_annotations[0].text == 'lyric',
+          'existing annotations are kept')
+  if add_keys:
+    wantk = [(f, chosen[f][0]) for f in range(F)
+             if f == 0 or chosen[f][0] != chosen[f - 1][0]]
+    c.check(len(seq.key_signatures) == len(wantk) and all(
+        bool(c.And(c.approx(ks.time, float(frame_time[f]), 1e-9),
+                   c.eq(ks.key, k)))
+        for ks, (f, k) in zip(seq.key_signatures, wantk)),
+            'key signatures replaced by the inferred keys at their frame '
+            'boundaries')
+  else:
+    c.check(len(seq.key_signatures) == 1 and
+            bool(c.eq(seq.key_signatures[0].key, 3)),
+            'key signatures untouched without add_key_signatures')
+  c.cover('a chord change inside the sequence', len(want) >= 2)
+  c.cover('a repeated chord adds nothing', len(want) < F)
+
+
+def h_melody_notes(c):
+  """The note-writing stage of infer_melody_for_sequence on an ARBITRARY valid
+  event path: sequence_note_frames runs for real (set / sort / bisect over
+  symbolic grid times); the transition model, the frame likelihoods and the
+  Viterbi kernel are stubs, the kernel stub choosing freely per frame among
+  rest, an onset of a pitch that has an onset in that frame, and the
+  continuation of the current pitch (the paths of non-zero likelihood)."""
+  from fractions import Fraction  # pylint: disable=g-import-not-at-top
+  mi = c.mod('melody_inference')
+  pb = c.pb
+  np = c.np
+  N, K = c.params['N'], c.params['K']
+  seq = pb.NoteSequence()
+  tk = c.int('total_k', 1, K)
+  seq.total_time = tk * 0.25
+  orig = []
+  for i in range(N):
+    n = seq.notes.add()
+    sk = c.int('n%d_s' % i, 0, K - 1)
+    ek = c.int('n%d_e' % i, 1, K)
+    c.assume(c.And(sk < ek, ek <= tk))
+    n.start_time = sk * 0.25
+    n.end_time = ek * 0.25
+    n.pitch = c.choice('n%d_p' % i, [60, 64])
+    n.velocity = 80
+    n.instrument = c.choice('n%d_i' % i, [0, 8])
+    orig.append((n.pitch, sk, ek, n.instrument))
+  frames = {}
+  real_frames = mi.sequence_note_frames
+
+  def note_frames(sequence):
+    r = real_frames(sequence)
+    frames['pitches'], frames['has_onsets'] = r[0], r[1]
+    frames['event_times'] = r[3]
+    return r
+
+  def viterbi(pitches, frame_loglik, unused_trans):
+    path = []
+    cur = None
+    for f in range(len(frame_loglik)):
+      opts = [mi.REST]
+      for j, p in enumerate(pitches):
+        if bool(frames['has_onsets'][f][j]):
+          opts.append((p, True))
+      if cur is not None:
+        opts.append((cur, False))
+      ev = c.choice('ev%d' % f, opts)
+      cur = None if ev == mi.REST else ev[0]
+      path.append(ev)
+    frames['path'] = path
+    return path
+
+  with _Stubs(mi, sequence_note_frames=note_frames,
+              _melody_transition_distribution=lambda **k: np.ones([257, 257]),
+              _melody_frame_log_likelihood=(
+                  lambda pitches, has_onsets, *a, **k: np.zeros(
+                      [len(has_onsets), 1 + 2 * len(pitches)])),
+              _melody_viterbi=viterbi):
+    inst, err = c.raises(mi.infer_melody_for_sequence, seq)
+  c.check(err is None, 'no error on an unquantized sequence with notes')
+  want_inst = max(i for _, _, _, i in orig) + 1
+  if want_inst == 9:
+    want_inst = 10
+  c.check(bool(c.eq(inst, want_inst)),
+          'melody goes to a fresh instrument (never the drum channel)')
+  total = Fraction(c.concretize(tk), 4)
+  onsets = set((p, Fraction(c.concretize(sk), 4)) for p, sk, _, _ in orig)
+  c.check(len(seq.notes) >= N and all(
+      bool(c.And(c.eq(n.pitch, p), c.eq(n.start_time, sk * 0.25),
+                 c.eq(n.end_time, ek * 0.25), c.eq(n.instrument, i)))
+      for n, (p, sk, ek, i) in zip(seq.notes, orig)),
+          'the notes of the sequence are untouched')
+  mel = []
+  for n in list(seq.notes)[N:]:
+    c.check(bool(c.eq(n.instrument, want_inst)), 'added notes are melody notes')
+    s, e = None, None
+    for k in range(0, K + 1):
+      if bool(c.eq(n.start_time, k * 0.25)):
+        s = Fraction(k, 4)
+      if bool(c.eq(n.end_time, k * 0.25)):
+        e = Fraction(k, 4)
+    c.check(s is not None and e is not None,
+            'melody note times are event times of the sequence')
+    if s is None or e is None:
+      return
+    mel.append((c.concretize(n.pitch), s, e))
+  for p, s, e in mel:
+    c.check((p, s) in onsets,
+            'a melody note starts at the onset of a real note of its pitch')
+    c.check(0 <= s <= e <= total, 'melody note lies within the sequence')
+  for (_, _, e1), (_, s2, _) in zip(mel, mel[1:]):
+    c.check(e1 <= s2, 'melody notes do not overlap, in time order')
+  n_onsets = sum(1 for ev in frames.get('path', []) if ev != mi.REST and ev[1])
+  c.check(len(mel) == n_onsets, 'one melody note per onset event of the path')
+  c.cover('two melody notes', len(mel) >= 2)
+  c.cover('a rest between melody notes',
+          any(e1 < s2 for (_, _, e1), (_, s2, _) in zip(mel, mel[1:])))
+
+
 HARNESSES = {'h_melody_viterbi': h_melody_viterbi,
+             'h_chord_annotations': h_chord_annotations,
+             'h_melody_notes': h_melody_notes,
              'h_melody_viterbi_wide': h_melody_viterbi_wide,
              'h_chord_viterbi': h_chord_viterbi}
 
@@ -171,7 +464,29 @@ def jobs(tier):
   add('h_chord_viterbi', T=1)
   add('h_melody_viterbi_wide', first=256, budget=600)
   add('h_melody_viterbi_wide', first=255, budget=600)
+  for add_keys in (False, True):
+    add('h_chord_annotations', mode='bars', K=12, spq=4, qpm=120, ts=[4, 4],
+        cpb=None, add_keys=add_keys)
+    add('h_chord_annotations', mode='beats', K=4, B=2, add_keys=add_keys)
+  add('h_chord_annotations', mode='bars', K=6, spq=4, qpm=120, ts=[3, 4],
+      cpb=None, add_keys=False)
+  add('h_chord_annotations', mode='bars', K=4, spq=1, qpm=60, ts=[4, 4], cpb=3,
+      add_keys=False)
+  add('h_chord_annotations', mode='bars', K=4, spq=4, qpm=120, ts=[5, 4],
+      cpb=None, add_keys=False)
+  add('h_chord_annotations', mode='beats', K=4, B=0, add_keys=False)
+  add('h_melody_notes', N=1, K=3)
+  add('h_melody_notes', N=2, K=3, budget=900)
   if tier == 'thorough':
+    for add_keys in (False, True):
+      add('h_chord_annotations', mode='beats', K=5, B=3, add_keys=add_keys,
+          budget=3000)
+      add('h_chord_annotations', mode='bars', K=16, spq=4, qpm=120, ts=[4, 4],
+          cpb=None, add_keys=add_keys, budget=1800)
+    add('h_chord_annotations', mode='bars', K=9, spq=2, qpm=90, ts=[6, 8],
+        cpb=None, add_keys=True, budget=1800)
+    add('h_melody_notes', N=2, K=4, budget=3000)
+    add('h_melody_notes', N=3, K=3, budget=3000, required=False)
     add('h_melody_viterbi', T=4, P=1, budget=1800)
     add('h_melody_viterbi', T=3, P=2, budget=3000, required=False)
     add('h_chord_viterbi', T=2, budget=3000, required=False)
